@@ -170,13 +170,13 @@ pub fn run(ctx: &Ctx) -> CheckResult {
             let mut base = scen::binary_roundtrip_case(bins[i], &[], None, true);
             base.property = "C01".into();
             let seed = rng::mix(ctx.seed, &base.name, 104);
-            jobs.push(FaultJob { base: base.clone(), step: 0, space: FaultSpace { read_side: false, write_side: true, budgets: if quick { Budgets::BoundariesPlus(12) } else { Budgets::Complete }, seed }, noise: true, max_variants: 0 });
+            jobs.push(FaultJob { base: base.clone(), step: 0, space: FaultSpace { read_side: false, write_side: true, meta_side: false, budgets: if quick { Budgets::BoundariesPlus(12) } else { Budgets::Complete }, seed }, noise: true, max_variants: 0 });
             // the same with the text going to a redirected stdout
             let mut via_stdout = base.clone();
             scen::decompile_to_stdout(&mut via_stdout.steps[0]);
             via_stdout.name.push_str(" >stdout");
-            jobs.push(FaultJob { base: via_stdout, step: 0, space: FaultSpace { read_side: false, write_side: true, budgets: if quick { Budgets::Boundaries } else { Budgets::BoundariesPlus(64) }, seed }, noise: !quick, max_variants: 0 });
-            jobs.push(FaultJob { base, step: 1, space: FaultSpace { read_side: true, write_side: true, budgets: if quick { Budgets::Boundaries } else { Budgets::BoundariesPlus(48) }, seed }, noise: true, max_variants: if quick { 120 } else { 0 } });
+            jobs.push(FaultJob { base: via_stdout, step: 0, space: FaultSpace { read_side: false, write_side: true, meta_side: false, budgets: if quick { Budgets::Boundaries } else { Budgets::BoundariesPlus(64) }, seed }, noise: !quick, max_variants: 0 });
+            jobs.push(FaultJob { base, step: 1, space: FaultSpace { read_side: true, write_side: true, meta_side: false, budgets: if quick { Budgets::Boundaries } else { Budgets::BoundariesPlus(48) }, seed }, noise: true, max_variants: if quick { 120 } else { 0 } });
         }
     }
     // the big decompile output (> 8 KiB of text: BufWriter spills mid-stream)
@@ -184,7 +184,7 @@ pub fn run(ctx: &Ctx) -> CheckResult {
         let mut base = scen::source_roundtrip_case(item, &[], None);
         base.property = "C01".into();
         let seed = rng::mix(ctx.seed, &base.name, 105);
-        jobs.push(FaultJob { base, step: 1, space: FaultSpace { read_side: false, write_side: true, budgets: if quick { Budgets::BoundariesPlus(8) } else { Budgets::BoundariesPlus(256) }, seed }, noise: !quick, max_variants: 0 });
+        jobs.push(FaultJob { base, step: 1, space: FaultSpace { read_side: false, write_side: true, meta_side: false, budgets: if quick { Budgets::BoundariesPlus(8) } else { Budgets::BoundariesPlus(256) }, seed }, noise: !quick, max_variants: 0 });
     }
     let camp = run_fault_campaign(ctx, &jobs);
     stats.merge(camp.stats);
